@@ -110,7 +110,7 @@ def run_history(ctx, h, which, mode):
         raise symex.HarnessError(which)
 
 
-def h_dest(ctx, N1, N2, mode, variant, abandon=False):
+def h_dest(ctx, N1, N2, mode, variant, abandon=False, lower_p=False):
     """variant 'history': same handler object after an earlier transaction;
     variant 'sibling': another handler instance is mid-transaction meanwhile"""
     # two files with the same write log must get the same checksum verdict: use the injective
@@ -149,6 +149,11 @@ def h_dest(ctx, N1, N2, mode, variant, abandon=False):
         if hist.rig.idle:
             ctx.end("infeasible")  # the sibling must be mid-transaction
         ctx.covered("sibling_busy")
+    if lower_p:
+        # the operator lowers the remote entity's maximum packet length between the two transactions
+        # (one segment request per NAK PDU from now on)
+        for r in (fresh.rig, used.rig):
+            r.rcfg.max_packet_len = 4 + 2 * 2 + 2 + 1 + 8 + 8
     # ---- the transaction under test, on the fresh and on the used handler
     for i in range(N2):
         a = fresh.step(T_ALPHABET[mode])
@@ -272,6 +277,9 @@ def plan(tier):
     specs.append(Spec("dest/ack/history/abandoned-by-fault/N2=3", "vf.harness.c11:h_dest",
                       {"N1": "file_size_fault", "N2": 3, "mode": "ack", "variant": "history", "abandon": True},
                       twin_share=0.02, obligations=["history_abandoned"]))
+    specs.append(Spec("dest/ack/history/mib-changed-after-deferred-nak/N2=4", "vf.harness.c11:h_dest",
+                      {"N1": "eof_missing_cancel", "N2": 4, "mode": "ack", "variant": "history", "lower_p": True},
+                      twin_share=0.02, obligations=["history_ended_idle"]))
     specs.append(Spec("dest/ack/history/abandoned-with-queued-pdu/N2=4", "vf.harness.c11:h_dest",
                       {"N1": "abandoned_with_queued_pdu", "N2": 4, "mode": "ack", "variant": "history", "abandon": True},
                       twin_share=0.02, obligations=["history_abandoned"]))
